@@ -538,7 +538,15 @@ func stripOAIGen(opts *FlattenOpts) (bool, error) {
 		updateRefParents(opts.Spec.references.allRefs, r)
 	}
 
+	// process the entries in a fixed order, nested keys before the keys they are nested in: when a $ref is re-inlined,
+	// its holder is overwritten as a whole, together with the $ref that its sibling keywords may hold
+	keys := make([]string, 0, len(opts.flattenContext.newRefs))
 	for k := range opts.flattenContext.newRefs {
+		keys = append(keys, k)
+	}
+	sort.Sort(sort.Reverse(sort.StringSlice(keys)))
+
+	for _, k := range keys {
 		r := opts.flattenContext.newRefs[k]
 		debugLog("newRefs[%s]: isOAIGen: %t, resolved: %t, name: %s, path:%s, #parents: %d, parents: %v,  ref: %s",
 			k, r.isOAIGen, r.resolved, r.newName, r.path, len(r.parents), r.parents, r.schema.Ref.String())
